@@ -13,6 +13,7 @@ CHECKS = {
         "units": [
             unit("c15-common", "internal/common", ["zz_verif_c15_test.go"], "^TestVerifC15",
                  shards={"quick": 4, "thorough": 16}),
+            unit("c15-root", "root", ["zz_verif_c15_test.go"], "^TestVerifC15", shards={"quick": 4, "thorough": 8}),
         ],
         "assumptions": [
             "SHA-256 from the Go standard library is correct (used by implementation and reference alike)",
